@@ -49,14 +49,14 @@ type exp6 struct {
 
 type gen6 struct {
 	cfgFalse int // depth of enclosing config false statements
-	r       *rand.Rand
-	b       strings.Builder
-	exp     []exp6
-	style   int // -1: per string random
-	ind     int
-	seq     int
-	noEsc   bool
-	longCat bool
+	r        *rand.Rand
+	b        strings.Builder
+	exp      []exp6
+	style    int // -1: per string random
+	ind      int
+	seq      int
+	noEsc    bool
+	longCat  bool
 }
 
 var textCatalog = []string{"plain text", "x", "two words", "with 'single' quotes", "semi;colon", "curly{brace}", "slash/and//slashes", "star/*not comment*/", "plus + sign", "tab\there",
